@@ -2,6 +2,9 @@ pub mod allocmc;
 pub mod c01;
 pub mod c02;
 pub mod c04;
+pub mod c07;
+pub mod c08;
+pub mod c11;
 pub mod c12;
 pub mod c13;
 pub mod c14;
@@ -22,6 +25,10 @@ pub fn dispatch(p: &str, ctx: &Ctx) -> Option<Report> {
         "C01" => c01::run(ctx),
         "C02" => c02::run(ctx),
         "C04" => c04::run(ctx),
+        "C07" => c07::run(ctx),
+        "C08" => c08::run(ctx),
+        "C31" => c08::run_c31(ctx),
+        "C11" => c11::run(ctx),
         "C12" => c12::run(ctx),
         "C13" => c13::run(ctx),
         "C14" => c14::run(ctx),
